@@ -688,6 +688,7 @@ func (g *graph) compile(ctx context.Context, opt *graphCompileOptions) (*composa
 		handlerPreNode[key] = append([]handlerPair(nil), handlers...)
 	}
 
+	mappedInputNodes := make(map[string]bool, len(g.fieldMappingRecords))
 	for key := range g.fieldMappingRecords {
 		// not allowed to map multiple fields to the same field
 		toMap := make(map[string]bool)
@@ -700,6 +701,7 @@ func (g *graph) compile(ctx context.Context, opt *graphCompileOptions) (*composa
 
 		// add map to input converter
 		handlerPreNode[key] = append(handlerPreNode[key], g.getNodeGenericHelper(key).inputFieldMappingConverter)
+		mappedInputNodes[key] = true
 	}
 
 	key2SubGraphs := g.beforeChildGraphsCompile(opt)
@@ -806,6 +808,8 @@ func (g *graph) compile(ctx context.Context, opt *graphCompileOptions) (*composa
 		preBranchHandlerManager: &preBranchHandlerManager{h: g.handlerPreBranch},
 		preNodeHandlerManager:   &preNodeHandlerManager{h: handlerPreNode},
 		edgeHandlerManager:      &edgeHandlerManager{h: g.handlerOnEdges},
+
+		mappedInputNodes: mappedInputNodes,
 	}
 
 	successors := make(map[string][]string)
